@@ -44,11 +44,11 @@ EvSeq(o) == [i \in 1..Len(o.bursts) |-> [k |-> "burst", key |-> o.bursts[i].key,
             \o [i \in 1..Len(o.behav) |-> [k |-> "behav", key |-> <<>>, ps |-> SeqSet(o.behav[i].ps)]]
             \o [i \in 1..Len(o.asym) |-> [k |-> "asym", key |-> <<>>, ps |-> {o.asym[i].p}]]
 
-BurstsOk(s, o) ==
-  LET F == BurstFlagged(s, cfg, 0) IN
+BurstsOk(s, o, now) ==        \* now: when the observation was made (only the intended design looks at it)
+  LET F == BurstFlagged(s, cfg, now) IN
   /\ Len(o.bursts) = Cardinality(F) /\ {o.bursts[i].key : i \in 1..Len(o.bursts)} = F
   /\ \A i \in 1..Len(o.bursts) : LET b == o.bursts[i] q == s.joins[b.key] IN
-        /\ b.peers = BurstPeers(s, cfg, b.key, 0)
+        /\ b.peers = BurstPeers(s, cfg, b.key, now)
         /\ b.win >= 0 /\ b.win >= q[Len(q)].lo - q[1].hi - 1 /\ b.win <= q[Len(q)].hi - q[1].lo + 1
 PrefixOk(s, o) ==
   /\ Len(o.prefix) = Cardinality(PrefixEv(s, cfg))
@@ -71,7 +71,7 @@ GroupsOk(s, o) ==
 ScoresOk(s, o) ==
   /\ Near(o.overall, Overall(s)) /\ o.overall >= 0 /\ o.overall <= 1000000
   /\ \A t \in Toks : o.susp[t] = Suspected(s, t) /\ o.risk[t] = Risk(s, t)
-Shows(s, o) == GroupsOk(s, o) /\ ScoresOk(s, o) /\ BurstsOk(s, o) /\ PrefixOk(s, o) /\ AsymOk(s, o) /\ BehavOk(s, o)
+Shows(s, o, now) == GroupsOk(s, o) /\ ScoresOk(s, o) /\ BurstsOk(s, o, now) /\ PrefixOk(s, o) /\ AsymOk(s, o) /\ BehavOk(s, o)
 
 (* ---- the clock band: an instant of the call lies in [t0, t1 + 1) ---- *)
 Lo == Ev.t0
@@ -94,10 +94,10 @@ RetOk(s) == IF Ev.op = "Cleanup" THEN Ev.panic = Cleanup(s, cfg, Lo, Hi).panic E
 
 (* `pre` is literally what the previous step showed as `post` (no query reads the clock): the candidates already show it *)
 PrevSame == l > 1 /\ LET r == Recs[l - 1] IN (r.ev = "Step" /\ "post" \in DOMAIN r /\ r.post = Ev.pre) \/ (r.ev = "Reset" /\ r.init = Ev.pre)
-PreC == IF PrevSame THEN cands ELSE {s \in cands : Shows(s, Ev.pre)}
+PreC == IF PrevSame THEN cands ELSE {s \in cands : Shows(s, Ev.pre, Ev.t0)}
 Base == IF PreC # {} THEN PreC ELSE {[s EXCEPT !.groups = ObsGroups(Ev.pre)] : s \in cands}
 Nexts == UNION {Outcomes(s) : s \in {x \in Base : RetOk(x)}}
-PostC == {s \in Nexts : Shows(s, Ev.post)}
+PostC == {s \in Nexts : Shows(s, Ev.post, Ev.t1)}
 AllNexts == UNION {Outcomes(s) : s \in Base}
 StepOk == PreC # {} /\ PostC # {}
 Resync == {[s EXCEPT !.groups = ObsGroups(Ev.post)] : s \in AllNexts}
